@@ -19,6 +19,8 @@ ties       : (A) codec   — the real _MIR_get_thunk/_MIR_redirect_thunk/_MIR_ge
                  re-enter MIR, 17-argument functions, permuted first-call orders) under interp, the
                  by-value block parameters of every class (blk, blk1..blk4, rblk) at every position 0..7 ints x 0..9 doubles
                  before the block, passed from MIR and from a C caller that does the psABI placement itself;
+                 one buffer passed by value as blk:<s1> and blk:<s2> (24..72 bytes, both orders) to native callees through
+                 prototypes differing only in the block size, checked against a reference the harness computes in C;
                  multi-result functions over every 1-/2-/3-tuple of result types (i64, narrow ints, f, d, ld), called by a
                  multi-result MIR call and from a C caller that reads rax:rdx, xmm0:xmm1, st0:st1 itself;
                  interpreter's C interface, eager / lazy / lazy-bb generation at every level and under mixed links
@@ -173,6 +175,7 @@ def replay_codec(rep):
 # ====================================================================== (B) histories
 def gen_hist_case(rng, cid):
     """-> (mir text, plan text, expected returns {line index: value}, stats)"""
+    RELINK_BB = "relink_bb_after_gen" in ENABLED   # bb link of a function that has machine code (finding C03:relink-bb-after-gen)
     nmod = 1 + rng.below(3)
     nf = 2 + rng.below(5)
     redef = rng.chance(1, 2)
@@ -253,7 +256,7 @@ def gen_hist_case(rng, cid):
             s = st[g]
             if not s["linked"] or s["pending"] or s["kind"] == "undefined":
                 return False
-            if s["kind"] == "bbwrap" and (s["mc"] or s["bb"] or s["interp"]):
+            if s["kind"] == "bbwrap" and ((s["mc"] and not RELINK_BB) or s["bb"] or s["interp"]):
                 return False
             if s["kind"] == "lazywrap" and (s["bb"] or s["interp"]):
                 return False
@@ -285,7 +288,7 @@ def gen_hist_case(rng, cid):
             continue
         if k in (3, 4):
             ifc = rng.choice(ifaces)
-            if s["bb"] or (ifc == "bb" and s["mc"]) or (ifc == "gen" and s["interp"]):
+            if s["bb"] or (ifc == "bb" and s["mc"] and not RELINK_BB) or (ifc == "gen" and s["interp"]):
                 continue
             plan.append(f"set {ifc} {i}")
             apply_set(i, ifc)
@@ -308,6 +311,9 @@ def gen_hist_case(rng, cid):
                 if t["kind"] == "lazywrap":
                     t["kind"] = "code"; t["mc"] = True
                     stats["first_call_lazy"] = stats.get("first_call_lazy", 0) + 1
+                elif t["kind"] == "bbwrap" and t["mc"]:
+                    t["kind"] = "code"    # whole-function code exists: the first call leads to it
+                    stats["first_call_bb_with_code"] = stats.get("first_call_bb_with_code", 0) + 1
                 elif t["kind"] == "bbwrap":
                     t["kind"] = "bbthunk"; t["bb"] = True
                     stats["first_call_bb"] = stats.get("first_call_bb", 0) + 1
@@ -452,7 +458,7 @@ def stage_regs():
 
 # ====================================================================== (D) programs
 def bad_lines(lines):
-    return [l for l in lines if (l[:2] in ("P ", "H ", "W ", "B ", "T ") and " | =" not in l and not l.startswith("H engines"))
+    return [l for l in lines if (l[:2] in ("P ", "H ", "W ", "B ", "T ", "X ") and " | =" not in l and not l.startswith("H engines"))
             or l.startswith("E ") or (l.startswith("A ") and not l.endswith(" same"))]
 
 
@@ -488,14 +494,14 @@ def check_prog_batch(engines, batch, tag, env=None):
         rc, lines, err = run_iface(engines, text, plan, f"{tag}_{o}", env, timeout=30)
         if _t.time() - t0 > 25:
             ck.log(f"slow harness run {tag}_{o} {engines}: {_t.time() - t0:.0f}s rc={rc} programs {[P.name for P, _ in batch]}")
-        res = [l for l in lines if l[:2] in ("P ", "H ", "W ", "B ", "T ", "A ") and not l.startswith("H engines")]
+        res = [l for l in lines if l[:2] in ("P ", "H ", "W ", "B ", "T ", "X ", "A ") and not l.startswith("H engines")]
         nexp = sum(nplan(pl[o % len(pl)]) for _, pl in batch)
         nexp += sum(pl[o % len(pl)].count("addrs\n") for _, pl in batch) * (len(engines) - 1)
         if rc != 0 or bad_lines(lines) or len(res) != nexp:
             # isolate per program
             for P, pl in batch:
                 rc1, l1, e1 = run_iface(engines, P.text(), pl[o % len(pl)], f"{tag}_{o}_iso", env, timeout=10)
-                r1 = [l for l in l1 if l[:2] in ("P ", "H ", "W ", "B ", "T ", "A ") and not l.startswith("H engines")]
+                r1 = [l for l in l1 if l[:2] in ("P ", "H ", "W ", "B ", "T ", "X ", "A ") and not l.startswith("H engines")]
                 n1 = nplan(pl[o % len(pl)]) + pl[o % len(pl)].count("addrs\n") * (len(engines) - 1)
                 if rc1 != 0 or bad_lines(l1) or len(r1) != n1:
                     fails.append({"prog": P, "plan": pl[o % len(pl)], "engines": engines, "lines": bad_lines(l1)[:60], "rc": rc1,
@@ -549,10 +555,24 @@ def classify_prog_failure(f):
         return "c01"
     if any(l.startswith("ORDER-DEPENDENT") for l in f["lines"]):
         return "c03"
+    # evaluations that carry a reference computed by the harness in C: when every generator engine returns the reference
+    # and an interpreter-side engine (interp, interpc, a mixed link) does not, the interp interface's call-out is wrong
+    xmine = []
+    for l in f["lines"]:
+        if l.startswith("X ") and " | ref:" in l:
+            t = l.split(" | ")[1].split()
+            ref, r = t[0][4:], [x.rstrip("*") for x in t[1:]]
+            if len(r) == len(f["engines"]):
+                gens = [v for e, v in zip(f["engines"], r) if e[:3] == "gen" or e[:4] == "lazy" or (e[:2] == "bb" and len(e) == 3)]
+                if gens and all(v == ref for v in gens) and any(v != ref for v in r):
+                    xmine.append(l)
+    if xmine:
+        f["lines"] = xmine
+        return "c03"
     lvl = [l for l in f["lines"] if same_level_disagreement(f["engines"], l)]
     # only the failing evaluations are re-run (a hanging call costs its 10 s alarm), in plan order
-    keys = [l.split(" | ")[0] for l in f["lines"] if " | " in l and l[:2] in ("P ", "H ", "W ", "B ", "T ")][:6]
-    cmd = {"P": "prog", "H": "callh", "W": "wide", "B": "callb", "T": "callm"}
+    keys = [l.split(" | ")[0] for l in f["lines"] if " | " in l and l[:2] in ("P ", "H ", "W ", "B ", "T ", "X ")][:6]
+    cmd = {"P": "prog", "H": "callh", "W": "wide", "B": "callb", "T": "callm", "X": "callx"}
     want = {" ".join([cmd[k[0]]] + k.split()[1:]) for k in keys}
     sub = [l for l in f["plan"].split("\n") if l.strip() in want]
     plan = ("\n".join(sub) + "\n") if (sub and f["rc"] == 0) else f["plan"]
@@ -614,7 +634,7 @@ def shrink_prog_failure(f):
     last = pl[-1].split()
     if tkey is not None:
         last = tkey.split()
-        last[0] = {"P": "prog", "H": "callh", "W": "wide", "B": "callb", "T": "callm"}.get(last[0], last[0])
+        last[0] = {"P": "prog", "H": "callh", "W": "wide", "B": "callb", "T": "callm", "X": "callx"}.get(last[0], last[0])
     if last[0] == "prog" and not any(l.startswith("ORDER") for l in f["lines"]) and _t.time() < deadline:
         try:
             def run_engine_env(exe, engs, t, p, workdir, tag, timeout=25, quiet=True):
@@ -828,6 +848,8 @@ def replay_case(rep):
         impl = [l for l in lines if l.startswith(("st ", "end"))]
         model = [l for l in mout.split("\n") if l.startswith(("st ", "end"))]
         bad = rc != 0 or impl != model or any(l.startswith("E ") or "crash" in l or "ADDR-CHANGED" in l for l in lines)
+        if rep.get("expect_ret") and [l.split()[3] for l in lines if l.startswith("ret ")] != rep["expect_ret"]:
+            bad = True
         return bad, ([l for l in lines if l.startswith(("E ", "ret "))] + [err[-200:]])[:4]
     if st == "regs":
         rc, out, err = run_capped([THUNK, "regs"], rep["plan"], timeout=30)
@@ -835,7 +857,7 @@ def replay_case(rep):
         return rc != 0 or not res or any("LOST" in l or "crash" in l or "hook=1 probe=1" not in l
                                          or (rep.get("bb_xmm_must_survive") and "clobbered:xmm" in l) for l in res), res[:3]
     rc, lines, err = run_iface(rep["engines"], rep["mir"], rep["plan"], "replay", rep.get("env"))
-    return rc != 0 or bool(bad_lines(lines)) or not any(l[:2] in ("P ", "H ", "W ", "B ", "T ") for l in lines[1:]), (bad_lines(lines) + [err[-200:]])[:4]
+    return rc != 0 or bool(bad_lines(lines)) or not any(l[:2] in ("P ", "H ", "W ", "B ", "T ", "X ") for l in lines[1:]), (bad_lines(lines) + [err[-200:]])[:4]
 
 
 def stage_corpus():
